@@ -692,7 +692,233 @@ def ev_diffev(case):
     return {"fails": fails, "n": 1, "tags": {"diffev," + cfg}, "sample": {"config": cfg, "theta": theta.tolist()}}
 
 
-EVALUATORS = {"scores": ev_scores, "select": ev_select, "select_nnf": ev_select_nnf, "diffev": ev_diffev}
+# ------------------------------------------------------------------ evaluator: selection with a process pool
+def ev_select_mp(case):
+    """Automatic selection (bfgs) with n_processes in {1, 2, 3}: the start placements are scripted in the calling process (the model
+    draws them there, before the pool is used).  The model opens a real multiprocessing pool: this evaluator must run in the main
+    process (pool workers are daemonic and cannot have children).  Oracle: the statement's (inside the bounds, scores no worse than
+    the centre of the box) for every n_processes, and the selection with a pool scores the same as the one without, from the same starts."""
+    import gc
+    import multiprocessing as mp
+
+    import inference.gp.regression as R
+    from mc.ref import gpref_b as G
+
+    if mp.current_process().daemon:
+        raise HarnessError("ev_select_mp has to run in the main process (run_cases(..., parallel=False))")
+    des = case["design"]
+    d = des["d"]
+    p = G.mean_n_params(case["mean"], d) + G.kernel_n_params(case["kernel"], d)
+    n_starts = int(case["n_starts"])
+    nrand = n_starts - 1
+    placements = list(itertools.product(ALPHABET, repeat=p))
+    crit = "loo" if case["cross_val"] else "lml"
+    cfg0 = "k=%s,m=%s,d=%d,n=%d,noise=%s,crit=%s,starts=%d" % (kname(case["kernel"]), case["mean"], d, des["n"], des["noise"], crit, n_starts)
+    if des.get("label"):
+        cfg0 += "," + des["label"]
+    fails, tags, slack = [], set(), {}
+    nev = 0
+    orig = R.random
+    sample = None
+    for tup in case["tuples"]:
+        if len(tup) != nrand:
+            raise HarnessError("tuple of %d placements for %d scripted starts" % (len(tup), nrand))
+        single = None
+        for nproc in case["n_processes"]:
+            cfg = cfg0 + ",n_processes=%d" % nproc
+            # (a script for zero starts still holds one value so that an unexpected draw is seen)
+            script = Script([v for i in tup for v in placements[i]] or [0.5])
+            R.random = script
+            try:
+                with lib("GpRegressor-bfgs-n_processes=%d" % nproc):
+                    gp = build_for_selection(case, optimizer="bfgs", n_starts=n_starts, n_processes=nproc)
+            finally:
+                R.random = orig
+                gc.collect()  # the model leaves its pool to the garbage collector
+            nev += 1
+            if script.pos != nrand * p:
+                raise HarnessError("seam: the model drew %d uniform numbers in the calling process, %d were scripted" % (script.pos, nrand * p))
+            theta = np.asarray(gp.hyperpars, dtype=float)
+            lo = np.array([b[0] for b in gp.hp_bounds], dtype=float)
+            hi = np.array([b[1] for b in gp.hp_bounds], dtype=float)
+            ctx = {"config": cfg, "starts": [list(placements[i]) for i in tup], "theta": theta.tolist(), "bounds": [lo.tolist(), hi.tolist()]}
+            kind = "bfgs-%s-%s" % (crit, "single-process" if nproc == 1 else "pool")
+            if theta.shape != lo.shape or not np.all(np.isfinite(theta)) or np.any(theta < lo) or np.any(theta > hi):
+                fails.append(fail("select-mp/%s/outside-bounds" % kind, "%s: selected %s not within %s..%s" % (cfg, theta.tolist(), lo.tolist(), hi.tolist()), **ctx))
+                continue
+            centre = 0.5 * (lo + hi)
+            with lib("model_selector"):
+                s_res = float(gp.model_selector(theta.copy()))
+                s_cen = float(gp.model_selector(centre.copy()))
+            margin = s_res - s_cen
+            if not np.isfinite(s_res) or margin < 0:
+                tol, _ = score_margin_tolerance(case, gp, theta, centre)
+                r = (-margin / tol) if tol > 0 else float("inf")
+                slack["select_mp_margin"] = max(slack.get("select_mp_margin", 0.0), r if np.isfinite(r) else 0.0)
+                if not np.isfinite(s_res) or -margin > tol:
+                    fails.append(fail("select-mp/%s/worse-than-centre" % kind, "%s: score(selected)=%r < score(centre of bounds)=%r (tol %.3g)" % (cfg, s_res, s_cen, tol), observed=s_res, expected_at_least=s_cen, **ctx))
+            if nproc == 1:
+                single = (theta, s_res)
+            elif single is not None:
+                if np.array_equal(theta, single[0]):
+                    tags.add(cfg0 + ",pool-selection-identical")
+                else:
+                    # a different point is acceptable only if it scores the same (ties between starts)
+                    tol, _ = score_margin_tolerance(case, gp, theta, single[0])
+                    diff = abs(s_res - single[1])
+                    r = (diff / tol) if tol > 0 else float("inf")
+                    slack["select_mp_vs_single"] = max(slack.get("select_mp_vs_single", 0.0), r if np.isfinite(r) else 0.0)
+                    if not diff <= tol:
+                        fails.append(fail("select-mp/bfgs-%s-pool/differs-from-single-process" % crit, "%s: selected %s (score %r); with n_processes=1 and the same starts %s (score %r)" % (cfg, theta.tolist(), s_res, single[0].tolist(), single[1]),
+                                          single_process_theta=single[0].tolist(), single_process_score=single[1], score=s_res, **ctx))
+                    else:
+                        tags.add(cfg0 + ",pool-selection-differs-with-equal-score")
+            tags.add("select-mp,starts=%d,n_processes=%d,remainder=%d" % (n_starts, nproc, n_starts % nproc))
+            sample = {"config": cfg, "theta": theta.tolist(), "margin": margin}
+    R.random = orig
+    seen, out = set(), []
+    for f in fails:
+        if f["key"] not in seen:
+            seen.add(f["key"])
+            out.append(f)
+    return {"fails": out, "n": nev, "tags": tags, "slack": slack, "sample": sample}
+
+
+# ------------------------------------------------------------------ evaluator: several regressor objects, interleaved
+GP_STYLES = ["default", "classes", "instances", "cp-classes"]
+GP_STYLE_SPEC = {"default": ("SE", "C"), "classes": ("SE", "C"), "cp-classes": (["CP", 0, "SE", "SE"], "L")}
+GP_OPS = ["marginal_likelihood", "loo_likelihood", "marginal_likelihood_gradient", "loo_likelihood_gradient", "predict", "loo_predictions"]
+TWO_RTOL = 1e-12
+
+
+def gp_style_spec(obj):
+    return GP_STYLE_SPEC.get(obj["style"]) or (obj["kernel"], obj["mean"])
+
+
+def build_styled_gp(obj):
+    """a GpRegressor with given hyper-parameters (no optimisation), kernel / mean passed in the given style; the caller never hands the same
+    instance to two objects"""
+    from inference.gp import ChangePoint, GpRegressor, SquaredExponential
+    from inference.gp.mean import ConstantMean, LinearMean
+
+    des = obj["design"]
+    kw = dict(noise_kwargs(des), hyperpars=np.array(obj["hyperpars"], dtype=float))
+    st = obj["style"]
+    if st == "classes":
+        kw.update(kernel=SquaredExponential, mean=ConstantMean)
+    elif st == "instances":
+        kw.update(kernel=lib_kernel(obj["kernel"]), mean=lib_mean(obj["mean"]))
+    elif st == "cp-classes":
+        kw.update(kernel=ChangePoint(kernels=[SquaredExponential, SquaredExponential], axis=0), mean=LinearMean)
+    elif st != "default":
+        raise HarnessError(st)
+    with lib("construct-" + st):
+        return GpRegressor(np.array(des["X"], dtype=float), np.array(des["y"], dtype=float), **kw)
+
+
+def gp_op(gp, op, theta, points):
+    """-> list of (component name, float array)"""
+    with lib(op):
+        if op == "predict":
+            mu, sg = gp(points.copy())
+            return [("mean", np.array(mu, dtype=float)), ("sigma", np.array(sg, dtype=float))]
+        if op == "loo_predictions":
+            mu, sg = gp.loo_predictions()
+            return [("mean", np.array(mu, dtype=float)), ("sigma", np.array(sg, dtype=float))]
+        res = getattr(gp, op)(theta.copy())
+    if op.endswith("_gradient"):
+        return [("value", np.array(float(res[0]))), ("gradient", np.array(res[1], dtype=float))]
+    return [("value", np.array(float(res)))]
+
+
+def _rel(a, b):
+    if a.shape != b.shape:
+        return float("inf")
+    if a.tobytes() == b.tobytes():
+        return 0.0
+    if not (np.all(np.isfinite(a)) and np.all(np.isfinite(b))):
+        return float("inf")
+    sc = float(np.abs(b).max()) if b.size else 0.0
+    df = float(np.abs(a - b).max()) if b.size else 0.0
+    return 0.0 if df == 0 else (df / sc if sc > 0 else float("inf"))
+
+
+def ev_two_models(case):
+    """Two or three GpRegressor objects built from different data; every sequence of <= max_len operations (object, operation), objects
+    built all first or each at its first use.  Every result must be what that object gives ALONE."""
+    objs = case["objects"]
+    nob = len(objs)
+    fails, tags, slack = [], set(), {}
+    seen = set()
+    nev = 0
+    desc = " | ".join("%s:n=%d,d=%d,noise=%s" % (o["style"], o["design"]["n"], o["design"]["d"], o["design"]["noise"]) for o in objs)
+
+    def add(key, what, **ctx):
+        if key not in seen:
+            seen.add(key)
+            fails.append(fail(key, what, **ctx))
+
+    thetas = [[np.array(t, dtype=float) for t in o["thetas"]] for o in objs]
+    points = [np.array(o["points"], dtype=float) for o in objs]
+    alone = {}
+    for oi, o in enumerate(objs):
+        for op in GP_OPS:
+            for ti in range(len(thetas[oi])):
+                gp = build_styled_gp(o)
+                if gp.n_hyperpars != len(thetas[oi][ti]):
+                    raise HarnessError("hyper-parameter layout: model has %d, reference %d" % (gp.n_hyperpars, len(thetas[oi][ti])))
+                alone[(oi, op, ti)] = gp_op(gp, op, thetas[oi][ti], points[oi])
+                nev += 1
+        if o["style"] in ("default", "classes"):
+            twin = dict(o, style="instances", kernel="SE", mean="C")
+            for op in GP_OPS:
+                got = alone[(oi, op, 0)]
+                want = gp_op(build_styled_gp(twin), op, thetas[oi][0], points[oi])
+                nev += 1
+                for (nm, g), (_, w) in zip(got, want):
+                    if _rel(g, w) > TWO_RTOL:
+                        add("two-models/%s/%s/differs-from-explicit-SquaredExponential-ConstantMean" % (o["style"], op),
+                            "a GpRegressor built with style '%s' gives a %s that differs from one given SquaredExponential() and ConstantMean() instances" % (o["style"], nm), objects=desc, observed=g.tolist(), expected=w.tolist())
+    for a, b in itertools.combinations(range(nob), 2):
+        if all(x[1].shape == y[1].shape and np.allclose(x[1], y[1], rtol=1e-6, atol=0) for op in GP_OPS for x, y in zip(alone[(a, op, 0)], alone[(b, op, 0)])):
+            raise HarnessError("objects %d and %d of this block give the same results" % (a, b))
+    ops = [(oi, op) for oi in range(nob) for op in GP_OPS]
+    nseq = 0
+    for order in case["build_orders"]:
+        for length in range(1, int(case["max_len"]) + 1):
+            for seq in itertools.product(ops, repeat=length):
+                if order == "at-first-use" and len({oi for oi, _ in seq}) < 2:
+                    continue
+                nseq += 1
+                built = [build_styled_gp(o) for o in objs] if order == "all-first" else [None] * nob
+                for pos, (oi, op) in enumerate(seq):
+                    if built[oi] is None:
+                        built[oi] = build_styled_gp(objs[oi])
+                    ti = pos % len(thetas[oi])
+                    got = gp_op(built[oi], op, thetas[oi][ti], points[oi])
+                    nev += 1
+                    for (nm, g), (_, w) in zip(got, alone[(oi, op, ti)]):
+                        r = _rel(g, w)
+                        if r == 0.0:
+                            continue
+                        slack["two_models_rel_difference"] = max(slack.get("two_models_rel_difference", 0.0), (r / TWO_RTOL) if np.isfinite(r) else 0.0)
+                        if r > TWO_RTOL:
+                            add("two-models/%s/%s/%s/differs-from-the-object-alone" % (objs[oi]["style"], op, nm),
+                                "objects [%s] built %s; operation %d of %s: %s on object %d gives a %s that differs from what the same object gives when nothing else is built or used: relative difference %.3g (allowed %g)"
+                                % (desc, order, pos + 1, [list(s) for s in seq], op, oi, nm, r, TWO_RTOL), objects=desc, order=order, calls=[list(s) for s in seq], observed=g.tolist(), expected=w.tolist())
+                if fails and len(seen) >= 6:
+                    break
+            if fails:
+                break
+        if fails:
+            break
+    tags.add("two-models,objects=[%s]" % desc)
+    for order in case["build_orders"]:
+        tags.add("two-models,n=%d,styles=%s,%s,len<=%d" % (nob, "+".join(o["style"] for o in objs), order, case["max_len"]))
+    return {"fails": fails, "n": nev, "tags": tags, "slack": slack, "sample": {"objects": desc, "histories": nseq, "operations": nev}}
+
+
+EVALUATORS = {"scores": ev_scores, "select": ev_select, "select_nnf": ev_select_nnf, "diffev": ev_diffev, "select_mp": ev_select_mp, "two_models": ev_two_models}
 
 
 # --------------------------------------------------------------------------- run
@@ -875,6 +1101,46 @@ def run(ck):
             dv.append({"design": des, "kernel": kspec, "mean": mspec, "cross_val": cv, "seed": seed})
     ck.run_cases("diffev", dv, chunk=1)
 
+    # ---------------------------------------------------------------- automatic selection through a process pool (main process, serial)
+    mpc = []
+    nnf = make_smooth_design(8, 1, SMOOTH_KINDS[seed % len(SMOOTH_KINDS)], seed, 1e-5)
+    for n_starts in range(1, 7):
+        nrand = n_starts - 1
+        cv = bool((n_starts + seed) % 2)
+        ntup = 1 if nrand == 0 else (2 if quick else 6)
+        tuples = [[(5 * seed + 7 * k + 3 * j + n_starts) % 27 for j in range(nrand)] for k in range(ntup)]
+        mpc.append({"design": d5e, "kernel": "SE", "mean": "C", "cross_val": cv, "n_starts": n_starts, "tuples": tuples, "n_processes": [1, 2, 3]})
+        if not quick or n_starts in (2, 3, 5):
+            mpc.append({"design": nnf, "kernel": "SE", "mean": "C", "cross_val": not cv, "n_starts": n_starts, "tuples": tuples[: (1 if quick else 3)], "n_processes": [1, 2, 3]})
+        if not quick and n_starts >= 2:
+            mpc.append({"design": d5e, "kernel": "RQ", "mean": "C", "cross_val": cv, "n_starts": n_starts, "tuples": [[(11 * seed + 13 * k + 5 * j + n_starts) % 81 for j in range(nrand)] for k in range(3)], "n_processes": [1, 2, 3]})
+    ck.run_cases("select_mp", mpc, parallel=False)
+
+    # ---------------------------------------------------------------- several regressor objects, interleaved
+    def styled(style, j, rot):
+        n, d = [(3, 1), (5, 2), (5, 1), (8, 1)][(rot + j) % 4] if j < 2 else (4, 2)
+        des = make_design(n, d, kinds[(rot + j) % 4], seed + 2 * j, noises[(rot + 2 * j) % 3])
+        o = {"style": style, "design": des}
+        if style == "instances":
+            o["kernel"], o["mean"] = KERNELS[(rot + j) % len(KERNELS)], MEANS[(rot + 2 * j) % len(MEANS)]
+        k, m = gp_style_spec(o)
+        lat = hp_lattice(k, m, des, (9, rot + j))
+        o["hyperpars"] = lat[(rot + j) % len(lat)]
+        o["thetas"] = [lat[(rot + j + 1) % len(lat)], lat[(rot + j + 4) % len(lat)]]
+        X = np.array(des["X"], dtype=float)
+        o["points"] = (X[:-1] + 0.37 * (X[1:] - X[:-1])).tolist() + [(X.min(axis=0) - 0.2 * (X.max(axis=0) - X.min(axis=0))).tolist()]
+        return o
+
+    two = []
+    for pi, (s0, s1) in enumerate(itertools.product(GP_STYLES, repeat=2)):
+        for order in ("all-first", "at-first-use"):
+            two.append({"objects": [styled(s0, 0, seed + pi), styled(s1, 1, seed + pi)], "max_len": 3 if (not quick or "default" in (s0, s1)) else 2, "build_orders": [order]})
+    trip = [t for t in itertools.product(GP_STYLES, repeat=3) if not quick or t.count("default") >= 2]
+    for ti, t in enumerate(trip):
+        two.append({"objects": [styled(st, j, seed + ti) for j, st in enumerate(t)], "max_len": 2 if quick else 3, "build_orders": ["all-first", "at-first-use"]})
+    two.sort(key=lambda c: -((len(GP_OPS) * len(c["objects"])) ** c["max_len"]))
+    ck.run_cases("two_models", two, chunk=1)
+
     ck.rule = (
         "scores: cartesian lattice designs (n in 3,5,8; d in 1,2; 4 point layouts) x noise (none, y_err, full y_cov) x kernels (SE, RQ, SE+WN, "
         "CP(SE,SE)) x means (constant, linear, quadratic) x {low,mid,high} per hyper-parameter block (mean, amplitude, length-scale, extra) "
@@ -886,16 +1152,24 @@ def run(ck):
         "error level {1e-3 (thorough), 1e-4, 1e-5, 1e-6} x both criteria x bounds {estimated, user-supplied wide box: 3 e-foldings / a factor 100..1000 either side} with every placement of one "
         "scripted start (27) (quick: a Latin quarter of the design product); thorough adds p=4 configurations (RQ, linear mean, SE+WN, d=2; 81 placements) and every multiset of three "
         "scripted starts on two designs; the termination flags of the optimiser runs are observed (pass-through) only to tag the designs on which a run ended abnormally / the best run ended "
-        "abnormally while another ended normally. diffev: fixed numpy seed, bounds only."
+        "abnormally while another ended normally. diffev: fixed numpy seed, bounds only. select_mp: n_processes {1,2,3} x n_starts 1..6 x scripted start tuples, real pool, from the main process; "
+        "distinct = (n_starts, n_processes, n_starts mod n_processes). two_models: two GpRegressor objects, every ordered pair of construction styles {no kernel/mean argument, default classes passed "
+        "explicitly, own instances (rotating kernel/mean), ChangePoint from classes + mean class} (16; three objects: %d triples), each with its own data (size, dimension, layout, noise model), "
+        "objects {all built first, each built at first use}: every sequence of operations (object, {marginal_likelihood, loo_likelihood, their gradient variants, prediction at new points, "
+        "loo_predictions}), compared bit-for-bit (else 1e-12) with the same operation on that object alone." % len(trip)
     )
     ck.assume("continuous inputs are represented by the listed finite lattices; n <= 8 (50-digit reference); points with cond(K+S) > 1e10 are skipped and counted")
     ck.assume("the diagonal stabiliser of smooth kernels is accepted as any relative inflation in [0,1e-10] of the kernel diagonal (measured from the model's data covariance)")
     ck.assume("near-noise-free selection designs are limited to stated errors of 1e-3..1e-6 of the data range, n <= 15, one smooth target function and the listed input layouts; an exception escaping from the constructor on such data is reported as a violation")
     ck.assume("random BFGS starts are enumerated on the alphabet {0,1/2,1-}^p only; scipy's differential_evolution consumes its own random stream and is only checked for bounds membership under numpy.random.seed(VERIF_SEED)")
-    ck.assume("n_processes > 1 (multiprocessing pool inside the constructor) is not exercised: the evaluators already run in daemonic pool workers")
+    ck.assume("n_processes in {1,2,3} x n_starts in 1..6 is exercised serially from the main process on one p=3 design (+ one near-noise-free design; thorough: + a p=4 model) with "
+              "%s scripted start tuples each (the starts are drawn in the calling process); the pool selection is required to score the same as the single-process one (identical point, or equal score within the derived score tolerance)" % ("2" if quick else "6"))
+    ck.assume("several live objects: 2 or 3 GpRegressor objects with given hyper-parameters, <= 3 operations (quick: <= 2 when no object is default-built or with three objects); the caller gives each object its own kernel / mean instances")
     ck.assume("gradients are required to an absolute floor of 1e3 eps (score magnitude) per natural parameter unit in addition to the first-order rounding bound")
     ck.extra["score_lattice_points"] = npoints
     ck.extra["select_blocks"] = len(sel)
     ck.extra["select_start_tuples"] = ntuples[0]
     ck.extra["select_nnf_blocks"] = len(sel_nnf)
     ck.extra["select_nnf_designs"] = nnf_designs
+    ck.extra["select_mp_blocks"] = len(mpc)
+    ck.extra["two_models_blocks"] = len(two)
